@@ -144,3 +144,35 @@ Print Assumptions C15_json_args_valid.
 Theorem C15_json_args_shown : forall entry raw, unescape (arg_json entry raw) = arg_shown entry raw.
 Proof. exact json_args_shown. Qed.
 Print Assumptions C15_json_args_shown.
+
+(* Counts and total times do not depend on the sample time given to the flame graph. *)
+Theorem C15_graph_sums_any_sample : forall sample rootname tids s q, wf_stream s = true -> NoDup tids ->
+  calls_at q (graph_build sample rootname tids s) = count_path q (ref_entries [] s)
+  /\ time_at q (graph_build sample rootname tids s) = time_path q (ref_calls tids s) mod W64.
+Proof. exact graph_sums_gen. Qed.
+Print Assumptions C15_graph_sums_any_sample.
+
+(* child_time of the node at a non-empty path q = sum over the calls whose CALLER's path is q of their duration
+   (sample = 0), resp. of that duration rounded down to whole samples (adjust_fg_time), modulo 2^64. *)
+Theorem C15_graph_child_time : forall sample rootname tids s q,
+  wf_stream s = true -> NoDup tids -> (forall r, In r s -> In (fst r) tids) -> q <> [] ->
+  ctime_at q (graph_build sample rootname tids s) mod W64 = Asum sample q (ref_calls tids s) mod W64.
+Proof. exact graph_ctime. Qed.
+Print Assumptions C15_graph_child_time.
+
+(* `dump --flame-graph --sample-time=S` (S <> 0): (p, c) is a printed line  iff  the trace has calls along p and
+   c <> 0 is (total time of these calls - whole samples shown for their callees) / S, computed in 64 bits.
+   PARTIAL: that the subtraction never wraps (callees run inside their caller) is not proved. *)
+Theorem C15_flame_sampled_partial : forall sample rootname tids s,
+  wf_stream s = true -> NoDup tids -> (forall r, In r s -> In (fst r) tids) -> sample <> 0 ->
+  forall p c, In (p, c) (flame_rows sample (graph_build sample rootname tids s)) <->
+    (count_path p (ref_entries [] s) <> 0
+     /\ c = sub64 (time_path p (ref_calls tids s)) (sampled_child_time sample p (ref_calls tids s)) / sample
+     /\ c <> 0).
+Proof. exact flame_sampled_lines. Qed.
+Print Assumptions C15_flame_sampled_partial.
+
+Theorem C15_flame_sampled_one_line_per_path : forall sample rootname tids s,
+  NoDup (map fst (flame_rows sample (graph_build sample rootname tids s))).
+Proof. exact flame_sampled_one_line_per_path. Qed.
+Print Assumptions C15_flame_sampled_one_line_per_path.
